@@ -1118,7 +1118,7 @@ impl<'arena> PrettyFormatter<'arena> {
             | Pattern::Named(Named(field, inner)) => self.named_pattern(pattern, field, *inner),
             | Pattern::Ctor(Ctor(name, inner)) => self
                 .constructor(name)
-                .append(self.constructor_argument_gap((*inner).into()))
+                .append(self.pattern_constructor_argument_gap(*inner))
                 .append(self.pattern_constructor_argument(*inner)),
             | Pattern::Project(ProjectionPattern(field, inner)) => {
                 self.projection_pattern(pattern, field, *inner)
@@ -1423,7 +1423,7 @@ impl<'arena> PrettyFormatter<'arena> {
             | Term::CoData(CoData { arms }) => self.block_like(self.codata(term, arms)),
             | Term::Ctor(Ctor(name, body)) => self
                 .constructor(name)
-                .append(self.constructor_argument_gap((*body).into()))
+                .append(self.term_constructor_argument_gap(*body))
                 .append(self.term_constructor_argument(*body)),
             | Term::Match(Match { scrut, arms }) => {
                 self.block_like(self.matcher(term, *scrut, arms))
@@ -1607,6 +1607,24 @@ impl<'arena> PrettyFormatter<'arena> {
         }
     }
 
+    /// The gap is needed only where the argument's comments are printed before its opening
+    /// delimiter: a bare argument is wrapped in parentheses and its comments go inside them.
+    fn term_constructor_argument_gap(&self, body: TermId) -> RcDoc<'arena> {
+        match &self.arena.terms[&body] {
+            | Term::Paren(_) => self.constructor_argument_gap(body.into()),
+            | _ => RcDoc::nil(),
+        }
+    }
+
+    fn pattern_constructor_argument_gap(&self, body: PatId) -> RcDoc<'arena> {
+        match &self.arena.pats[&body] {
+            | Pattern::Alias(_) | Pattern::Manifest(_) | Pattern::Paren(_) => {
+                self.constructor_argument_gap(body.into())
+            }
+            | _ => RcDoc::nil(),
+        }
+    }
+
     fn pattern_constructor_argument(&self, body: PatId) -> RcDoc<'arena> {
         match &self.arena.pats[&body] {
             | Pattern::Alias(_) | Pattern::Manifest(_) => self.annotated_pattern(body),
@@ -1614,7 +1632,7 @@ impl<'arena> PrettyFormatter<'arena> {
                 | [inner] if self.should_elide_parentheses(body.into(), (*inner).into()) => self
                     .with_leading_comments(
                         body.into(),
-                        self.constructor_argument_gap((*inner).into())
+                        self.pattern_constructor_argument_gap(*inner)
                             .append(self.pattern_constructor_argument(*inner)),
                     ),
                 | _ => self.with_leading_comments(
